@@ -69,7 +69,7 @@ def modelReach (cfg : Cfg) (kind : Nat) (p : Array Nat) : Reach :=
     | .ok off => .at off
     | .panic =>
       let why := match Idt.lookupArm arms p[0]! with
-        | some (.panic msg) => reasonTok (Idt.refusalOfMsg msg)
+        | some (.panic _ why) => reasonTok (Idt.refusalOfReason why)
         | _ => "other"
       .panic ["p", why]
   | _ =>
